@@ -17,6 +17,8 @@ DATA_OFFSET = 468      # MutableShareFile: 100-byte header + 4 lease slots of 92
 
 def main_(seed, nscen):
     warnings.simplefilter("ignore")
+    from allmydata.util import cputhreadpool
+    cputhreadpool._DISABLED = True      # zfec and RSA key generation run inline: no cross-thread wake-ups to lose, reproducible schedules
     from twisted.internet import defer, reactor
     from allmydata import client
     from allmydata.nodemaker import NodeMaker
